@@ -25,6 +25,17 @@ def oracle(rep, rng, n_cfg, n_hist, n_tr):
         stats['reverse_triples'] = stats.get('reverse_triples', 0) + 1
         if max(d.values()) > 1e-8:
             rfails.append(dict(kind='reverse-chen', config=ob._ser(cfg), triple=[s, u, t], defect=d))
+    # fresh objects with a Levy area: exact Chen for A across the two stored pieces, all flag combinations, direct and reversed
+    for _ in range(max(8, n_cfg // 3)):
+        cfg = ob.random_config(rng, allow_halfway=False)
+        cfg.update(t0=-1.0, span=1.0, tol=0.0, dt=None, levy=rng.choice(['davie', 'foster']), size=rng.choice([(2, 3), (1, 2), (3, 2)]))
+        rev = rng.random() < 0.6
+        lo = 0.0 if rev else -1.0
+        s, u, t = sorted(rng.uniform(lo, lo + 1.0) for _ in range(3))
+        d = ob.fresh_triple_defect(cfg, s, u, t, rev)
+        stats['fresh_levy_triples'] = stats.get('fresh_levy_triples', 0) + 1
+        if max(d.values()) > 1e-8:
+            rfails.append(dict(kind='fresh-levy-chen', reverse=rev, config=ob._ser(cfg), triple=[s, u, t], defect=d))
     wf, ws = ob.wrapper_search(rng, max(6, n_cfg // 2))
     stats['wrappers'] = ws
     return fails + rfails[:2] + wf, stats
